@@ -60,6 +60,10 @@ func storeAlphabet(o alphabetOpts) []storeOp {
 	if len(o.idxB) > 0 {
 		ops = append(ops, opAddW(1, o.idxB[0], 2))
 	}
+	if len(o.idxB) > 1 {
+		// a fractional weight on the partner (merged into a receiver that has no bin there yet)
+		ops = append(ops, opAddW(1, o.idxB[1], 0.5))
+	}
 	ops = append(ops, o.runs...)
 	if len(o.idxB) > 0 {
 		ops = append(ops, opMerge(0, 1), opMerge(1, 0))
